@@ -121,7 +121,7 @@ int cmd_worker(const std::map<std::string, std::string>& a) {
       j.set("rerun_log_hash", hex64(o2.log_hash));
       j.set("rerun_same", o.log_hash == o2.log_hash && o2.violations.size() == o.violations.size());
       set_recorded_schedule(&cb, o);
-      j.set("case", case_to_json(cb));
+      { J cj = case_to_json(cb); if (a.count("weak-hash")) cj.set("weak_hash", true); j.set("case", cj); }   // (a replay must run with the same std::hash)
       emit(j);
       if (o2.poisoned) o.poisoned = true;
     } else if (samples < want_samples && o.nontrivial) {
